@@ -25,6 +25,7 @@ type Gen struct {
 	done map[string]bool
 	hs   []string // harness names
 
+	SchemaProp      string // differential harnesses: property id the schema labels are reported under
 	HookPassThrough bool // GenSchema hooks of the program return their argument (corpus support code)
 }
 
@@ -432,6 +433,8 @@ func (g *Gen) nullIffZero(o *Occ) {
 			w(`    if _, act := p.%s.(*%s%s); !act { vrt.Assert("C07/"+path+"/%s:inactive-null", v.Null) }`, grp.GoName, g.TQ, s.Wrapper, n)
 			if s.Kind == SScalar && !s.Leaf.HasZero && !s.Leaf.Ptr {
 				w(`    if sel == %d { vrt.Assert("C07/"+path+"/%s:active-nonnull", !v.Null) }`, i+1, n)
+				// time and duration held by value are always rendered once their branch is the active one
+				w(`    if _, act := p.%s.(*%s%s); act { vrt.Assert("C20/"+path+"/%s:by-value-time-duration-rendered", !v.Null) }`, grp.GoName, g.TQ, s.Wrapper, n)
 			} else {
 				w(`    if _, act := p.%s.(*%s%s); act { vrt.Assert("C07/"+path+"/%s:active-nonnull-iff-nonzero", v.Null == (sel != %d)) }`, grp.GoName, g.TQ, s.Wrapper, n, i+1)
 			}
@@ -463,6 +466,9 @@ func (g *Gen) nullIffZero(o *Occ) {
 				w(`{ v, _ := tf.Attrs[%q].(%s); vrt.Assert("C20/"+path+"/%s:null-iff-nil", v.Null == (%s%s == nil)) }`, n, g.tfv(s.Leaf.TFVal), n, embOr, x)
 			case s.Leaf.HasZero:
 				w(`{ v, _ := tf.Attrs[%q].(%s); vrt.Assert("C20/"+path+"/%s:null-iff-zero", v.Null == (%s%s)) }`, n, g.tfv(s.Leaf.TFVal), n, embOr, zeroExpr(s.Leaf, x))
+			case s.EmbedPtr == "":
+				// time and duration held by value: excluded from zero-is-null, always rendered
+				w(`{ v, _ := tf.Attrs[%q].(%s); vrt.Assert("C20/"+path+"/%s:by-value-time-duration-rendered", !v.Null) }`, n, g.tfv(s.Leaf.TFVal), n)
 			}
 		case SList, SMap, SMsgList, SMsgMap:
 			ct := "types.List"
